@@ -56,6 +56,7 @@ type node struct {
 	logs    *observer.ObservedLogs
 	dir     string
 	spy     *spyChain
+	rec     *actRecorder
 	closed  bool
 }
 
@@ -86,8 +87,9 @@ func newNode(t testing.TB, dir string, pk types.PrivateKey, network *consensus.N
 	if err != nil {
 		t.Fatal("volumes:", err)
 	}
-	spy := &spyChain{Manager: cm, dbstore: dbstore}
-	con, err := contracts.NewManager(db, vm, spy, nopSyncer{}, wm, contracts.WithRejectAfter(10), contracts.WithRevisionSubmissionBuffer(5), contracts.WithLog(log.Named("contracts")))
+	rec := &actRecorder{}
+	spy := &spyChain{Manager: cm, dbstore: dbstore, rec: rec}
+	con, err := contracts.NewManager(&spyStore{Store: db, rec: rec}, vm, spy, &spySyncer{rec: rec}, wm, contracts.WithRejectAfter(10), contracts.WithRevisionSubmissionBuffer(5), contracts.WithLog(log.Named("contracts")))
 	if err != nil {
 		t.Fatal("contracts:", err)
 	}
@@ -103,7 +105,7 @@ func newNode(t testing.TB, dir string, pk types.PrivateKey, network *consensus.N
 	if err != nil {
 		t.Fatal("index:", err)
 	}
-	return &node{store: db, dbstore: dbstore, cm: cm, w: wm, vm: vm, con: con, set: sm, idx: idx, logs: logs, dir: dir, spy: spy}
+	return &node{store: db, dbstore: dbstore, cm: cm, w: wm, vm: vm, con: con, set: sm, idx: idx, logs: logs, dir: dir, spy: spy, rec: rec}
 }
 
 func (n *node) close() {
@@ -130,6 +132,7 @@ type spyChain struct {
 	*chain.Manager
 	dbstore  *chain.DBStore
 	refusals []string
+	rec      *actRecorder
 }
 
 func (sc *spyChain) AddV2PoolTransactions(basis types.ChainIndex, txns []types.V2Transaction) (bool, error) {
@@ -141,7 +144,9 @@ func (sc *spyChain) AddV2PoolTransactions(basis types.ChainIndex, txns []types.V
 		return out
 	}
 	orig := cp()
+	kind, kid, kids := classifyV2(txns)
 	known, err := sc.Manager.AddV2PoolTransactions(basis, txns)
+	sc.recordSub(kind, kid, kids, err == nil)
 	if err == nil {
 		return known, err
 	}
@@ -801,6 +806,23 @@ func (w *world) scanLogs(single bool) (n int, acts, prej []string) {
 		if !strings.Contains(e.LoggerName, "lifecycle") {
 			continue
 		}
+		// a listed skip: the host says why it submits nothing for the contract at this index
+		if lk := logKind(e.LoggerName); lk != "" && cid != "" && (e.Level >= zapcore.WarnLevel || strings.Contains(e.Message, "skipping")) {
+			reason := "other"
+			switch {
+			case strings.Contains(s, "to pool"):
+				reason = "pool"
+			case strings.Contains(s, "fund"):
+				reason = "fund"
+			case strings.Contains(s, "no benefit"):
+				reason = "nobenefit"
+			case strings.Contains(s, "proof index"):
+				reason = "noproofindex"
+			case strings.Contains(s, "storage proof") || strings.Contains(s, "contract root") || strings.Contains(s, "sector"):
+				reason = "proofbuild"
+			}
+			w.host.rec.addSkip(idx, lk, cid, reason)
+		}
 		kind := strings.TrimPrefix(e.LoggerName[strings.Index(e.LoggerName, "lifecycle")+len("lifecycle"):], ".")
 		kind = strings.ReplaceAll(kind, " ", "_")
 		if kind == "" {
@@ -1064,10 +1086,11 @@ func (w *world) finish(tr *vhlib.Trace, op string, pre string) {
 		}
 	}
 	w.host.spy.refusals = nil
+	ars := w.renderRounds(tr)
 	if len(pref) > 8 {
 		pref = append(pref[:4], pref[len(pref)-4:]...)
 	}
-	tr.Line(op, strings.TrimSpace(fmt.Sprintf("res=ok %s %s %s acc=%s mkidx=%d mkcel=%d hostrej=%d acts=[%s] prej=[%s] pref=[%s]", pre, strings.Join(toks, " "), obs, acc, bi, bc, rej, strings.Join(acts, ","), strings.Join(prej, ","), strings.Join(pref, ","))))
+	tr.Line(op, strings.TrimSpace(fmt.Sprintf("res=ok %s %s %s acc=%s mkidx=%d mkcel=%d hostrej=%d acts=[%s] prej=[%s] pref=[%s] %s", pre, strings.Join(toks, " "), obs, acc, bi, bc, rej, strings.Join(acts, ","), strings.Join(prej, ","), strings.Join(pref, ","), strings.Join(ars, " "))))
 }
 
 func (w *world) doMine(tr *vhlib.Trace, n int, to string, pool bool) {
@@ -1078,6 +1101,19 @@ func (w *world) doMine(tr *vhlib.Trace, n int, to string, pool bool) {
 	cm := w.host.cm
 	mined := 0
 	for i := 0; i < n; i++ {
+		if !pool {
+			// a block that ignores the host's pool while a proof window is open: outside C06's liveness hypothesis
+			h := cm.Tip().Height + 1
+			for _, c := range w.cons {
+				ph := c.fc.ProofHeight
+				if c.v1 {
+					ph = c.rev1.Revision.WindowStart
+				}
+				if h+6 >= ph && h <= c.exp+1 {
+					c.unstable = true
+				}
+			}
+		}
 		var txns []types.Transaction
 		var v2 []types.V2Transaction
 		if pool {
@@ -1328,8 +1364,13 @@ func (w *world) doAnnounce(tr *vhlib.Trace, newAddr bool) {
 }
 
 // doForm forms a v2 contract between the harness renter key and the host (both outputs paid to the host wallet).
-func (w *world) doForm(tr *vhlib.Trace, dur uint64) {
+func (w *world) doForm(tr *vhlib.Trace, dur uint64, nopool ...bool) {
 	op := fmt.Sprintf("form dur=%d", dur)
+	skipPool := len(nopool) > 0 && nopool[0]
+	if skipPool {
+		// the renter never broadcast the formation: the host has to do it (RebroadcastV2Formation)
+		op += " nopool=1"
+	}
 	if w.dead {
 		return
 	}
@@ -1361,7 +1402,11 @@ func (w *world) doForm(tr *vhlib.Trace, dur uint64) {
 		} else {
 			n.w.SignV2Inputs(&txn, toSign)
 			set := rhp4.TransactionSet{Transactions: []types.V2Transaction{txn}, Basis: basis}
-			if _, err := n.cm.AddV2PoolTransactions(set.Basis, set.Transactions); err != nil {
+			var perr error
+			if !skipPool {
+				_, perr = n.cm.AddV2PoolTransactions(set.Basis, set.Transactions)
+			}
+			if perr != nil {
 				n.w.ReleaseInputs(nil, set.Transactions)
 				res = "poolrej"
 			} else if err := n.con.AddV2Contract(set, proto4.Usage{}); err != nil {
